@@ -60,6 +60,10 @@ def cases(tier, seed):
     for deg in range(0, 7):
         for shape in ("1d", "2d", "0d"):
             yield dict(kind="trend", degree=deg, shape=shape)
+        # the degree reached through set_params / attribute assignment after construction with another degree (seed C03-r2_1)
+        yield dict(kind="trend", degree=deg, shape="1d", route="set_params")
+        yield dict(kind="trend", degree=deg, shape="1d", route="attribute")
+        yield dict(kind="trend", degree=deg, shape="1d", route="clone")
     yield dict(kind="trend_bad")
     for region in ([0.0, 5000.0, -5000.0, 0.0], [-2.0, 6.0, 1.0, 2.0], [10.0, 11.0, -8.0, 8.0]):
         for amp in (1000.0, -2.5):
@@ -269,7 +273,19 @@ def run(case, rec):
         assert len(mons) == ncoef
         ee, nn = np.meshgrid(np.arange(-2.0, 4.0), np.arange(-3.0, 3.0))
         ee, nn = ee.ravel(), nn.ravel()
-        tr = vd.Trend(deg)
+        route = case.get("route")
+        if route == "set_params":
+            tr = vd.Trend((deg + 2) % 7)
+            tr.jacobian((ee, nn))
+            tr.set_params(degree=deg)
+        elif route == "attribute":
+            tr = vd.Trend((deg + 3) % 7)
+            tr.degree = deg
+        elif route == "clone":
+            from sklearn.base import clone
+            tr = clone(vd.Trend(deg))
+        else:
+            tr = vd.Trend(deg)
         J = call(rec, tr.jacobian, (ee, nn))
         if raised(J):
             return rec.check(False, "Trend.jacobian raised %r" % (J,))
